@@ -33,6 +33,9 @@ CHECKS["C05"] = dict(category="exploration", technique="Hypothesis round-trip pr
 CHECKS["C08"] = dict(category="exploration", technique="Hypothesis-generated datetimes and time updates under 4 process time zones (time.tzset per worker), oracle: instants computed independently with zoneinfo and compared exactly",
     text="For each process zone in {UTC, America/Los_Angeles, Australia/Lord_Howe, Asia/Kathmandu} generated cases insert aware datetimes (any fixed offset, IANA zones) and naive datetimes concentrated in DST gaps and folds, with ties and adjacent-microsecond neighbours, years 1700-2240; apply static/callable time updates and reopen; after each stage returned times, get_timestamps (index and scan path), all six TimeQuery operators with right-hand sides in arbitrary zones and the stable time order are compared with independently computed instants on {CSV, memory} x {auto_index on, off}.",
     note="Trusts zoneinfo/tzdata and PEP 495 semantics for the expected instants; the process zone is switched with time.tzset() inside the worker (equivalent to starting the interpreter with TZ set, as datetime reads the C library's zone state at call time).", design="3/C08")
+CHECKS["C04"] = dict(category="exploration", technique="Hypothesis-generated (storage configuration, history) pairs on the lock-step executor; oracle: independent CSV decoder and a fresh read-only instance on the file bytes == reference model, after every operation",
+    text="Generated pairs of a CSV storage configuration (flush_on_insert x 4 encodings x 9 csv dialect option sets x auto_index, compact/default prefixes mixed) and a history of writes interleaved with early-stopping reads and reopens; after every returning operation (or after close when flush_on_insert is off) the file bytes are decoded by an independent reader and by a fresh TinyFlux and must equal the reference model, strings covering delimiters, quotes, CR/LF, non-ASCII and > 8 KiB values.",
+    note="Trusts Python's csv and codecs for the independent reader; strings outside what the encoding/dialect can represent are outside the domain (discarded, counted).", design="3/C04")
 NA = {}
 checks = []
 for p in props:
